@@ -678,6 +678,31 @@ template <class D> struct ObjHarness : Harness {
     return false;
   }
 
+  // Same, for a step that may meet undefined behaviour (using an object that a fault left damaged): whatever it does to the
+  // heap stays in its own process.  Returns false if the step recorded a violation or died (reported as for any branch).
+  template <class F> bool in_quarantine(Run& R, const Op& op, const char* what, F body) {
+    fflush(stdout); fflush(stderr);
+    pid_t g = fork();
+    if (g < 0) return false;
+    if (g == 0) {
+      kit_cpu_deadline(30);
+      R.ctx.reset_for_branch();
+      body();
+      bool clean = R.ctx.viols.empty();
+      R.ctx.flush(false);
+      _exit(clean ? 0 : 3);
+    }
+    int st = 0;
+    while (waitpid(g, &st, 0) < 0 && errno == EINTR) {}
+    if (WIFEXITED(st) && WEXITSTATUS(st) == 0) return true;
+    if (WIFEXITED(st) && WEXITSTATUS(st) == 3) return false;
+    std::string how = WIFSIGNALED(st) ? "sig" + std::to_string(WTERMSIG(st)) : "exit" + std::to_string(WEXITSTATUS(st));
+    std::string mon = (WIFEXITED(st) && WEXITSTATUS(st) == 77) ? "sanitizer" : (WIFEXITED(st) && WEXITSTATUS(st) == 78) ? "terminate" : "crash";
+    R.ctx.violation("C14", mon + "-in-fault-branch", klass(op, std::string(what) + "|" + how + "|" + (R.ctx.sh ? std::string(R.ctx.sh->note) : "")),
+                    "fault branch died (" + how + ") during: " + (R.ctx.sh ? std::string(R.ctx.sh->note) : ""));
+    return false;
+  }
+
   std::string leak_site(Run& R) {
     // parse the LSan report that was written to fd 2 (redirected to a file by the caller)
     return "";
@@ -736,6 +761,7 @@ template <class D> struct ObjHarness : Harness {
     Env<D> env; for (int s : slots) env.o.push_back(R.pool[(size_t) s].get());
     Cur cur(op, (size_t) d.nslots, R.W);
     auto call = d.prep(env, cur);
+    if (getenv("VERIF_TRACE")) for (int s : uniq) std::cerr << "TRACE good copy of slot " << s << " before the call: OK=" << good[s]->OK() << "\n";
     std::string outcome = "completed";
     long live0 = g_fault.live;
     ctx.note(("branch: faulted call " + fk + "@" + std::to_string(k)).c_str());
@@ -764,6 +790,7 @@ template <class D> struct ObjHarness : Harness {
       ctx.note("branch: watcher teardown");
     }
     call = nullptr;
+    if (getenv("VERIF_TRACE")) for (int s : uniq) std::cerr << "TRACE good copy of slot " << s << " right after the call: OK=" << good[s]->OK() << "\n";
     // 1. exception type
     bool expect_alloc = fk == "alloc" || fk == "allocs";
     if (outcome.compare(0, 6, "other:") == 0)
@@ -793,6 +820,9 @@ template <class D> struct ObjHarness : Harness {
     //     unspecified after a resource fault, their invariant is not): OK(), a copy, and a few queries on them
     if (outcome == "bad_alloc" || outcome == "abandoned") {
       ctx.note("branch: direct use of the objects that were hit");
+      // (in a process of its own: a damaged object - finding F35 - may make these calls read and WRITE out of bounds, and the
+      //  recovery checks below must not run on a heap they have scribbled on)
+      bool direct_use_clean = in_quarantine(R, op, fk.c_str(), [&]() {
       for (int s : uniq) {
         D& x = *R.pool[(size_t) s];
         bool ok = false;
@@ -820,7 +850,8 @@ template <class D> struct ObjHarness : Harness {
         }
         catch (const std::exception& e) { ctx.violation("C14", "damaged-unusable", klass(op, outcome), std::string("copying / querying an object involved in a call cut short throws: ") + e.what()); }
       }
-      if (!ctx.viols.empty()) return;
+      });
+      if (!direct_use_clean || !ctx.viols.empty()) return;
     }
     // 5./6. recovery of every involved object
     for (size_t i = 0; i < uniq.size(); ++i) {
@@ -832,7 +863,8 @@ template <class D> struct ObjHarness : Harness {
       else { D tmp(*good[s]); using std::swap; swap(*R.pool[(size_t) s], tmp); }
       ctx.note("branch: recovered object checks");
       D& x = *R.pool[(size_t) s];
-      if (!x.OK()) ctx.violation("C14", "recovered-not-ok", klass(op, mode == 1 ? "assign" : mode == 2 ? "swap" : "recreate"), "object recovered after " + outcome + " fails OK()");
+      if (!x.OK()) { if (getenv("VERIF_TRACE")) std::cerr << "TRACE recovered object\n" << dump_of(x) << "\nTRACE good copy (OK=" << good[s]->OK() << ")\n" << dump_of(*good[s]) << "\n";
+        ctx.violation("C14", "recovered-not-ok", klass(op, mode == 1 ? "assign" : mode == 2 ? "swap" : "recreate"), "object recovered after " + outcome + " fails OK()"); }
       else if (!same_value(x, *good[s])) ctx.violation("C14", "recovered-differs", klass(op), "object recovered after " + outcome + " differs from the value assigned to it");
     }
     // the same operation, un-faulted, on the recovered objects and on pristine copies
